@@ -4,6 +4,7 @@ mod admit;
 mod block_on;
 mod c01;
 mod c02;
+mod c03;
 mod c04;
 mod c05;
 mod c06;
@@ -27,6 +28,7 @@ fn main() {
     match args.prop.as_str() {
         "C01" => c01::run(&args),
         "C02" => c02::run(&args),
+        "C03" => c03::run(&args),
         "C04" => c04::run(&args),
         "C05" => c05::run(&args),
         "C06" => c06::run(&args),
